@@ -490,6 +490,17 @@ func run(id, tier string, seed uint64) int {
 		}
 	}
 
+	// ---- coverage-guided extension (C05, thorough) ----
+	var fuzzExecs map[string]int64
+	if id == "C05" && (tier == "thorough" || os.Getenv("VERIF_FUZZ") != "") {
+		fv, fe := fuzzPass(id, tier, seed)
+		fuzzExecs = fe
+		for _, v := range fv {
+			viols = append(viols, v)
+			total.ViolCounts["_unclassified:"+v.Sub]++
+		}
+	}
+
 	// ---- known findings ----
 	known := map[string]finding{}
 	var fl struct {
@@ -629,6 +640,10 @@ func run(id, tier string, seed uint64) int {
 		"inconclusive_reasons":   inconclusive,
 		"workers":                nshards,
 	}
+	if fuzzExecs != nil {
+		cov["fuzz_executions"] = fuzzExecs
+		cov["fuzz_note"] = "go test -fuzz on the five C05 targets with a fixed execution count; coverage-guided, therefore not deterministic in the inputs it tries"
+	}
 	if race {
 		cov["race_report_blocks"] = raceBlocks
 		cov["race_reports_distinct"] = raceDistinct
@@ -684,6 +699,47 @@ func run(id, tier string, seed uint64) int {
 	}
 	fmt.Printf("HELD property=%s on everything explored\n", id)
 	return 0
+}
+
+// fuzzPass is the coverage-guided extension of C05 (thorough tier only): Go's native fuzzer runs every
+// family's target for a fixed number of executions; a crasher is a violation carrying the input.
+func fuzzPass(id, tier string, seed uint64) ([]h.Viol, map[string]int64) {
+	execs := map[string]int64{}
+	var viols []h.Viol
+	n := "2000000x"
+	if v := os.Getenv("VERIF_FUZZ_EXECS"); v != "" {
+		n = v + "x"
+	}
+	re := regexp.MustCompile(`execs: (\d+)`)
+	for _, target := range []string{"FuzzWKB", "FuzzWKT", "FuzzJSON", "FuzzBSON", "FuzzMVT"} {
+		cache := filepath.Join(workDir, "fuzzcache")
+		script := fmt.Sprintf("ulimit -v 12000000; exec go test -tags verif -run '^$' -fuzz '^%s$' -fuzztime %s ./fuzz -test.fuzzcachedir %s", target, n, cache)
+		cmd := exec.Command("bash", "-c", script)
+		cmd.Dir = root
+		cmd.Env = goEnv()
+		out, err := cmd.CombinedOutput()
+		if m := re.FindAllStringSubmatch(string(out), -1); len(m) > 0 {
+			execs[target], _ = strconv.ParseInt(m[len(m)-1][1], 10, 64)
+		}
+		if err != nil {
+			txt := string(out)
+			if len(txt) > 6000 {
+				txt = txt[len(txt)-6000:]
+			}
+			detail := map[string]interface{}{"go_test_output_tail": txt}
+			// move the crasher out of the package's testdata so it is kept with the replays, not in the source tree
+			if files, _ := filepath.Glob(filepath.Join(root, "fuzz", "testdata", "fuzz", target, "*")); len(files) > 0 {
+				b, _ := ioutil.ReadFile(files[0])
+				detail["failing_input_file_content"] = string(b)
+				for _, f := range files {
+					os.Remove(f)
+				}
+			}
+			viols = append(viols, h.Viol{Prop: id, Sub: "fuzz-" + target, Idx: uint64(len(viols)), Seed: seed, Tier: tier, Msg: "coverage-guided fuzzing found a failing input (" + target + ")", Detail: detail})
+		}
+	}
+	os.RemoveAll(filepath.Join(root, "fuzz", "testdata"))
+	return viols, execs
 }
 
 // coverPass re-runs the quick workload of the property under Go's coverage instrumentation
@@ -890,6 +946,10 @@ func replay(id, file string) int {
 	os.MkdirAll(workDir, 0755)
 	defer os.RemoveAll(workDir)
 	fmt.Printf("recorded: sub=%s idx=%d seed=%d tier=%s key=%q\n  %s\n", v.Sub, v.Idx, v.Seed, v.Tier, v.Key, v.Msg)
+	if strings.HasPrefix(v.Sub, "fuzz-") {
+		fmt.Println("found by the coverage-guided extension; the failing input is in the record's detail (failing_input_file_content)")
+		return 0
+	}
 	if v.Sub == "race-detector" || v.Sub == "?" {
 		fmt.Println("this record has no single replayable case (race report or unattributed worker death); re-run the check instead")
 		return 0
